@@ -60,7 +60,7 @@ Inductive act :=
 | MsgDeliver (k : tok)         (* TransmitMsg after a hit: done? drop : create if absent; deliver *)
 | MissCheck (i : nat)          (* requestTree: park, then IsRegistered *)
 | MissRegister (i : nat)       (* requestTree: Register (and send the request) *)
-| TreeArrive (i : nat)         (* handleSendTree: accepted only if registered; Set *)
+| TreeArrive (i : nat)         (* handleSendTree: accepted only while requested and missing; Set *)
 | Done (k : tok)               (* nodeDone -> nodeDelete -> cleanTreeStorage -> Remove *)
 | TimerFire (c : nat)          (* the timer goroutine's select takes timer.C *)
 | TimerCancel (c : nat)        (* ... or takes the closed cancellation channel *)
@@ -186,10 +186,10 @@ Definition step (fx : fixes) (s : st) (a : act) : option st :=
                  (known s) (created s) (hits s) (misses s) r (delivered s) (answers s) (next s))
   | TreeArrive i =>
       match trees s i with
-      | TAbsent => Some s                           (* "ignoring unknown tree" *)
-      | _ =>
+      | TRequested =>                               (* requested and not yet received: stored *)
           Some (mkSt (upd (trees s) i TPresent) (cancel_deletion s i) (closed_after_cancel s i) (timers s) (inst s) (known s)
                      (created s) (hits s) (misses s) (regs s) (delivered s) (answers s) (next s))
+      | _ => Some s                                 (* "ignoring tree that is not awaited" *)
       end
   | Done k =>
       if window_busy fx s then None else
